@@ -1200,6 +1200,10 @@ class Executor:
         f = None if callee.startswith(("move ", "copy ")) else self.P.resolve(callee)
         if f is not None and any(re.search(p, ncallee) or re.search(p, f.name) for p in self.cfg.get("inline", [])):
             return self.run_function(f, args, depth + 1)
+        # rscel functions the target did not single out: executed from their MIR as well (so that a
+        # refactoring into helper functions is followed), unless the target keeps them uninterpreted
+        if f is not None and self.cfg.get("inline_default") and not any(re.search(p, ncallee) for p in self.cfg.get("keep_uninterpreted", [])):
+            return self.run_function(f, args, depth + 1)
         # 4. havoc - only for calls that cannot write through their arguments; anything else is an
         #    unmodelled effect and makes the path (and the target) inconclusive rather than wrong
         for a in args:
